@@ -314,6 +314,10 @@ def store(
         else:
             stored_persisted = persist(*arrays, **kwargs)
             arrays = []
+            if load_stored:
+                # the persisted blocks already hold the data read back from
+                # the targets (not the targets themselves): nothing to load
+                arrays, stored_persisted = list(stored_persisted), ()
             for s, r in zip(stored_persisted, regions_list):
                 slices = ArraySliceDep(s.chunks)
                 arrays.append(
